@@ -130,7 +130,13 @@ class C11(Check):
                     else:
                         attrs[a] = dict(k="lit", v=draw(BOX_SCALARS[a]))
                 elif a == "main" or (a == "spare" and spare_total):
-                    attrs[a] = nested(2, ref=True) if draw(st.booleans()) else dict(k="obj", part=draw(st.integers(0, n_parts - 1)))
+                    if sub_total and draw(st.integers(0, 5)) == 0:
+                        # a select three levels below the root: root -> match -> match -> select
+                        leaf = dict(k="match", type=draw(st.sampled_from(["Part", "SpecialPart"])), attrs=part_pattern(0), select=True)
+                        mid = dict(k="match", type="Part", attrs={"sub": leaf}, select=False)
+                        attrs[a] = dict(k="match", type="Part", attrs={"sub": mid}, select=draw(st.integers(0, 3)) == 0)
+                    else:
+                        attrs[a] = nested(2, ref=True) if draw(st.booleans()) else dict(k="obj", part=draw(st.integers(0, n_parts - 1)))
                 elif a == "spare":
                     attrs[a] = dict(k="obj", part=draw(st.integers(0, n_parts - 1)))
                 elif a == "parts":
